@@ -465,8 +465,11 @@ func vfC15OccBody(unique bool, shapes [][2]int, chars []uint8, reps []int, withU
 			}
 			if differ {
 				majRegion = true
-				if mode == 0 && vfC15Known(vfC15KeyMaj) {
-					// accept both readings: most frequent of the column or of the counted cells
+				if mode == 0 {
+					// The property does not fix the replacement character of rare-residue masking
+					// (only which cells are masked): both readings of "most frequent character" are
+					// accepted - of the whole column (function documentation) or of the counted
+					// cells (implementation)
 					tiesOf[j] = append(append([]uint8{}, tiesCol...), tiesCounted...)
 				}
 			}
